@@ -1509,6 +1509,107 @@ Proof.
 Qed.
 
 (* ------------------------------------------------------------------ *)
+(* Compact                                                             *)
+
+Lemma st_remove_get st k i : k < i -> st_get (st_remove_to st k) i = st_get st i.
+Proof.
+  intros H. unfold st_get, st_remove_to. cbn [st_ents]. induction (st_ents st) as [|x l IH]; [reflexivity|].
+  cbn [filter find]. destruct (k <? e_index x) eqn:E.
+  - cbn [find]. destruct (e_index x =? i); [reflexivity|exact IH].
+  - destruct (e_index x =? i) eqn:E2; [lia|exact IH].
+Qed.
+
+(* the reader is replaced by one with the same fields, the store by one that agrees above the marker *)
+Lemma R_rd_update w sp lr' st' :
+  R w sp -> lr_marker lr' = lr_marker (w_lr w) -> lr_mterm lr' = lr_mterm (w_lr w) ->
+  lr_len lr' = lr_len (w_lr w) -> lr_ssidx lr' = lr_ssidx (w_lr w) ->
+  (forall i, sp_mi sp < i -> st_get st' i = st_get (w_st w) i) -> st_max st' = st_max (w_st w) ->
+  R (mkW (w_el w) lr' st' (w_prev w) (w_queue w) (w_limit w)) sp.
+Proof.
+  intros HR L1 L2 L3 L4 S1 S2.
+  constructor; cbn [w_el w_lr w_st w_queue]; try apply HR.
+  - unfold lr_last. rewrite L1, L2, L3. apply (r_lr _ _ HR).
+  - intros i Hi1 Hi2. rewrite S1 by auto. apply (r_st _ _ HR); auto.
+  - rewrite S2. apply (r_stmax _ _ HR).
+  - rewrite L4. apply (r_ss _ _ HR).
+Qed.
+
+Lemma step_compact w sp k : R w sp -> wf_op sp (OCompact k) = true ->
+  exists w', step w (OCompact k) = Ok w' /\ R w' (sp_compact sp k) /\ w_limit w' = w_limit w.
+Proof.
+  intros HR Hwf. cbn [wf_op] in Hwf. apply andb_true_iff in Hwf as [Hk Hok]. fold (rd_ok sp) in Hok.
+  pose proof (r_si _ _ HR) as HS.
+  pose proof (si_mp _ HS) as S1. pose proof (si_pc _ HS) as S2. pose proof (si_cl _ HS) as S3.
+  pose proof (si_ps _ HS) as S4. pose proof (si_sl _ HS) as S5.
+  pose proof (cover_ge_saved _ HS) as CG. pose proof (cover_le_last _ HS) as CL.
+  destruct (r_lr _ _ HR Hok) as (A & B & C & D & E).
+  cbn [step]. unfold w_compact, lr_compact. rewrite A.
+  destruct (k <? sp_mi sp) eqn:E1.
+  - (* already compacted further: only the store removal happens *)
+    eexists; split; [reflexivity|]. split; [|reflexivity].
+    unfold sp_compact. destruct ((sp_mi sp <? k) && (k <=? sp_last sp)) eqn:E2; [lia|].
+    apply (R_rd_update w sp (w_lr w)); auto. intros i Hi. apply st_remove_get. lia.
+  - destruct (lr_last (w_lr w) <? k) eqn:E2; [lia|].
+    rewrite (v_lr_term _ _ _ HR Hok) by lia. cbn [bind].
+    eexists; split; [reflexivity|]. split; [|reflexivity].
+    unfold sp_compact. destruct ((sp_mi sp <? k) && (k <=? sp_last sp)) eqn:E3.
+    2:{ (* k is the marker itself *)
+      assert (k = sp_mi sp) by lia. subst k.
+      apply (R_rd_update w sp); cbn [lr_marker lr_mterm lr_len lr_ssidx]; auto; try lia.
+      - unfold sp_term. rewrite N.eqb_refl. congruence.
+      - intros i Hi. apply st_remove_get. lia. }
+    assert (Hmk : sp_mi sp < k) by lia.
+    assert (Es : sp_snap sp = false).
+    { destruct (sp_snap sp) eqn:Es; [|reflexivity]. destruct (si_snap _ HS Es). lia. }
+    set (sp' := mkSpec k (sp_term sp k) (skipn (N.to_nat (k - sp_mi sp)) (sp_ents sp))
+                  (sp_committed sp) (sp_processed sp) (sp_saved sp) (sp_snap sp) (sp_pend sp) (sp_persisted sp)).
+    assert (Hlast : sp_last sp' = sp_last sp).
+    { unfold sp_last, sp'. cbn [sp_mi sp_ents]. rewrite nlen_skipn. unfold sp_last in *. lia. }
+    assert (Hget : forall i, k < i -> sp_get sp' i = sp_get sp i).
+    { intros i Hi. unfold sp_get, sp'. cbn [sp_mi sp_ents]. destruct (i <=? k) eqn:X1; [lia|]. destruct (i <=? sp_mi sp) eqn:X2; [lia|].
+      rewrite nth_error_skipn. f_equal. lia. }
+    assert (Hterm : forall i, k <= i -> sp_term sp' i = sp_term sp i).
+    { intros i Hi. unfold sp_term at 1. unfold sp' at 1 2. cbn [sp_mi sp_mt]. destruct (i =? k) eqn:X1.
+      - f_equal. lia.
+      - rewrite Hget by lia. unfold sp_term. destruct (i =? sp_mi sp) eqn:X2; [lia|]. reflexivity. }
+    assert (Hcov : cover sp' = cover sp) by (unfold cover; rewrite Hlast; reflexivity).
+    assert (Hrd : rd_ok sp' = rd_ok sp) by reflexivity.
+    assert (Hsave : sp_to_save sp' = sp_to_save sp).
+    { unfold sp_to_save, sp'. cbn [sp_mi sp_ents sp_saved]. rewrite skipn_skipn. f_equal. lia. }
+    constructor; cbn [w_el w_lr w_st w_queue]; try rewrite Hcov; try rewrite Hrd; try rewrite Hlast.
+    + constructor; try rewrite Hlast; unfold sp'; cbn [sp_mi sp_mt sp_ents sp_committed sp_processed sp_saved sp_snap sp_pend sp_persisted]; try lia.
+      * replace (k + 1) with (sp_mi sp + 1 + N.of_nat (N.to_nat (k - sp_mi sp))) by lia. apply log_ok_skipn. apply (si_log _ HS).
+      * rewrite Es. discriminate.
+      * apply (si_max _ HS).
+      * apply (si_pers _ HS).
+    + apply (r_c _ _ HR).
+    + apply (r_p _ _ HR).
+    + apply (r_s _ _ HR).
+    + apply (r_m2 _ _ HR).
+    + apply (r_w1 _ _ HR).
+    + intros i Hi1 Hi2. cbn [sp' sp_mi] in Hi1. rewrite Hget by exact Hi1. apply (r_w2 _ _ HR); lia.
+    + apply (r_w3 _ _ HR).
+    + cbn [sp' sp_mi sp_mt]. intros Hm. destruct (sp_get_in sp k HS) as [e Ge]; [lia|lia|].
+      exists e. split; [rewrite (r_w2 _ _ HR) by lia; exact Ge|].
+      unfold sp_term. destruct (k =? sp_mi sp) eqn:X; [lia|]. rewrite Ge. reflexivity.
+    + cbn [sp' sp_snap]. rewrite Es. discriminate.
+    + cbn [sp' sp_snap sp_mi sp_mt]. rewrite Es. pose proof (r_snap _ _ HR) as X. rewrite Es in X. exact X.
+    + apply (r_a1 _ _ HR).
+    + cbn [sp' sp_mi]. intros Ha Hka. rewrite Hterm by exact Hka. apply (r_a2 _ _ HR); auto. lia.
+    + intros _. unfold lr_last. cbn [lr_marker lr_mterm lr_len sp' sp_mi sp_mt]. unfold lr_last in *.
+      split; [reflexivity|]. split; [reflexivity|]. split; [lia|]. split; [lia|]. intros X. specialize (E X). lia.
+    + cbn [sp' sp_mi]. intros i Hi1 Hi2. rewrite st_remove_get by exact Hi1. rewrite Hget by exact Hi1. apply (r_st _ _ HR); lia.
+    + cbn [sp' sp_mi st_remove_to st_max]. intros X. apply (r_stmax _ _ HR). lia.
+    + cbn [lr_ssidx sp' sp_mi]. destruct (r_ss _ _ HR) as (X & _). split; [lia|]. rewrite Hok. discriminate.
+    + cbn [sp' sp_pend]. pose proof (r_q _ _ HR) as Q. destruct (sp_pend sp) as [p|]; [|exact Q].
+      destruct Q as (ud & Hq & U1 & U2 & U3 & U4 & U5 & U6 & U7 & U8). exists ud. split; [exact Hq|].
+      unfold ud_rel. rewrite Hsave, Hlast. split; [exact U1|]. split.
+      { destruct (spd_save_last p) as [[i t]|]; [|exact U2]. destruct U2 as (X1 & X2 & X3 & X4 & X5).
+        repeat split; auto. rewrite Hterm by lia. exact X4. }
+      cbn [sp' sp_committed sp_processed sp_saved sp_snap sp_mi sp_mt]. rewrite Es in *. repeat split; auto.
+Qed.
+
+(* ------------------------------------------------------------------ *)
 (* induction over operation sequences                                  *)
 
 (* the operations whose preservation of R is proved here; for the others
